@@ -329,7 +329,7 @@ fn check_one(ctx: &Ctx, scratch: &Path, s: &Scenario, kind: &str) -> (Check, usi
     if has_fault_after_first_pack(s, &o) {
         ctx.class("nontrivial");
         ctx.nontrivial(hash_of(&v.to_string()));
-        if hash_of(&v.to_string()) % 197 == 0 {
+        if (ctx.samples_len() < 2 || hash_of(&v.to_string()) % 197 == 0) {
             ctx.sample(4, || json!({"scenario": v, "commands": o.log.iter().map(|e| format!("{} {}{}", e["prog"].as_str().unwrap_or(""), argv(e).join(" "), if e["failed"] == true { "   <- FAILED" } else { "" })).collect::<Vec<_>>(), "exit": o.code}));
         }
     }
